@@ -282,3 +282,7 @@ def run(ctx: Context) -> None:  # noqa: F811
 
     ctx.rep.rule('C04.R7', 'lazy establishment is a test-and-set under the establishment lock (the `is None` / `not connected` test is evaluated inside the lock region that installs the connection)')
     support.establish_test_and_set(ctx, 'C04.R7')
+    from . import support as _support
+
+    ctx.rep.rule('C04.R8', 'async tree: every test / suspension / write sequence on a field of a task-shared object is one critical section of an async lock that all writers of the field hold')
+    _support.await_atomicity_census(ctx, 'C04.R8')
